@@ -281,10 +281,14 @@ class Seams(object):
             self._pending_retry_fault = False
         elif eligible:
             self.op_counts[full] += 1
+            self.op_counts["*"] += 1
             nth = self.op_counts[full]
             for f in self.plan:
                 if f.get("done"):
                     continue
+                if f.get("kind") == "F-any" and int(f.get("nth", 1)) == self.op_counts["*"]:
+                    fault = f       # the k-th intercepted kernel call of this op, whatever kernel it is
+                    break
                 if f.get("kind") == "F-gesdd" and full == "sp.svd/gesdd" and int(f.get("nth", 1)) == nth:
                     fault = f
                     break
@@ -318,6 +322,11 @@ class Seams(object):
             if wrote:
                 self.probes["fault_after_inplace_write"] += 1
             self.kernel_events.append((full, shape, kind, "wrote" if wrote else "kept"))
+            if kind == "F-any" and full == "sp.svd/gesdd":
+                kind = "F-gesdd"    # a failing gesdd is a failing gesdd, however it was addressed
+                self.fired["F-any"] -= 1
+                self.fired["F-gesdd"] += 1
+                self.kernel_events[-1] = (full, shape, kind, "wrote" if wrote else "kept")
             if kind == "F-gesdd":
                 self.probes["retry_path_armed"] += 1
                 if fault.get("double"):
